@@ -319,6 +319,8 @@ Definition run (c : config) (s : state) (evs : list event) : state := fold_left 
 (** * Driving the micro-steps the way the harness does *)
 Definition is_idle (s : state) (i : nat) : bool := match pcs s i with None => true | _ => false end.
 Definition at_yield (s : state) (i : nat) : bool := match pcs s i with Some (PRefresh _ _ _) => true | _ => false end.
+(** yield_point(0) of hook H1b: should_rollover said Some, the compare_exchange has not been attempted *)
+Definition at_cas (s : state) (i : nat) : bool := match pcs s i with Some (PCas _ _ _ _) => true | _ => false end.
 (** a complete make_writer + write + drop has at most 5 micro-steps *)
 Fixpoint steps_until (c : config) (stop : state -> bool) (fuel : nat) (s : state) (i : nat) : state :=
   match fuel with
@@ -329,11 +331,19 @@ Definition finish (c : config) (s : state) (i : nat) : state := steps_until c (f
 Definition to_yield (c : config) (s : state) (i : nat) : state :=
   steps_until c (fun s => is_idle s i || at_yield s i) 6 s i.
 
-Inductive hop := HW (i : nat) (t : Z) (b : chunk) | HPark (i : nat) (t : Z) (b : chunk) | HRel (i : nat).
+Definition to_cas (c : config) (s : state) (i : nat) : state :=
+  steps_until c (fun s => is_idle s i || at_cas s i) 6 s i.
+
+Inductive hop :=
+| HW (i : nat) (t : Z) (b : chunk)
+| HPark (i : nat) (t : Z) (b : chunk)      (* parked at yield_point(1): after a won compare_exchange *)
+| HPark0 (i : nat) (t : Z) (b : chunk)     (* parked at yield_point(0): before the compare_exchange *)
+| HRel (i : nat).
 Definition hstep (c : config) (s : state) (o : hop) : state :=
   match o with
   | HW i t b => finish c (step c s (Start i t b)) i
   | HPark i t b => to_yield c (step c s (Start i t b)) i
+  | HPark0 i t b => to_cas c (step c s (Start i t b)) i
   | HRel i => finish c s i
   end.
 
@@ -347,6 +357,6 @@ Definition obs_trace_h (c : config) (s : state) (os : list hop)
   : list (list (string * chunk * N) * nat * bool) :=
   snd (fold_left (fun (a : state * list (list (string * chunk * N) * nat * bool)) o =>
                     let s' := hstep c (fst a) o in
-                    let parked := match o with HPark i _ _ => at_yield s' i | _ => false end in
+                    let parked := match o with HPark i _ _ => at_yield s' i | HPark0 i _ _ => at_cas s' i | _ => false end in
                     (s', snd a ++ [(observe s', (List.length (rots s') - List.length (rots (fst a)))%nat, parked)]))
                  os (s, [])).
